@@ -349,6 +349,29 @@ Proof.
   - rewrite (within_mono p (midpoint r p) pm Hp (in_i64_abs _ Ip)); [apply orb_true_r| lia | exact Wp].
 Qed.
 
+(* Midpoint does not wrap when the difference of its arguments is an int64 *)
+Lemma midpoint_nowrap x y : in_i64 x -> in_i64 y -> Z.abs (y - x) <= max_i64 ->
+  midpoint x y = x + Z.quot (y - x) 2 /\ Z.abs (midpoint x y) <= Z.max (Z.abs x) (Z.abs y).
+Proof.
+  unfold in_i64, min_i64, max_i64. intros Hx Hy Hd.
+  assert (E : midpoint x y = x + Z.quot (y - x) 2).
+  { unfold midpoint, go_div.
+    rewrite (i64_same (y - x)) by (unfold in_i64, min_i64, max_i64; lia).
+    rewrite (i64_same (Z.quot (y - x) 2)) by (unfold in_i64, min_i64, max_i64; lia).
+    apply i64_same. unfold in_i64, min_i64, max_i64. lia. }
+  split; [exact E|]. rewrite E. lia.
+Qed.
+
+Lemma midpoint_within_nowrap rm pm r p : cap_ok rm -> cap_ok pm -> in_i64 r -> in_i64 p ->
+  Z.abs (p - r) <= max_i64 -> within r rm = true -> within p pm = true ->
+  within (midpoint r p) rm || within (midpoint r p) pm = true.
+Proof.
+  intros Hr Hp Ir Ip Hn Wr Wp. destruct (midpoint_nowrap r p Ir Ip Hn) as [_ Hle].
+  destruct (Z_le_dec (Z.abs p) (Z.abs r)) as [L|G].
+  - rewrite (within_mono r (midpoint r p) rm Hr (in_i64_abs _ Ir)); [reflexivity| lia | exact Wr].
+  - rewrite (within_mono p (midpoint r p) pm Hp (in_i64_abs _ Ip)); [apply orb_true_r| lia | exact Wp].
+Qed.
+
 Lemma dabs_abs po : po <> min_i64 -> in_i64 po -> dabs po = Z.abs po.
 Proof. unfold dabs, in_i64, min_i64, max_i64. intros. destruct (0 <=? po) eqn:A; [lia|]. destruct (po =? _) eqn:B; lia. Qed.
 
@@ -376,14 +399,19 @@ Proof.
   - (* both *)
     destruct (c_cutoff cfg <? dabs po) eqn:C.
     + apply andb_true_intro. split.
-      * destruct (flt rm two62f) eqn:Sr, (flt pm two62f) eqn:Sp; cbn [andb]; try reflexivity.
-        apply midpoint_within; assumption.
+      * match goal with |- (if ?b then _ else _) = true => destruct b eqn:SN; [|reflexivity] end.
+        apply orb_true_iff in SN. destruct SN as [SN|SN].
+        -- apply andb_prop in SN. destruct SN as [Sr Sp]. apply midpoint_within; assumption.
+        -- destruct kr as [ro'|]; [|discriminate SN]. destruct kp as [po'|]; [|discriminate SN].
+           assert (ro' = ro) as -> by (destruct Kr as [K|K]; congruence).
+           assert (po' = po) as -> by (destruct Kp as [K|[K _]]; congruence).
+           apply Z.leb_le in SN. apply midpoint_within_nowrap; assumption.
       * destruct kp as [x|].
         -- destruct (Kcut x eq_refl) as [E ->]. destruct Kr as [-> | ->]; [rewrite E; reflexivity|].
            rewrite E. cbn. apply Z.eqb_refl.
         -- destruct kr; reflexivity.
     + apply andb_true_intro. split.
-      * rewrite Wr. cbn. destruct (_ && _); reflexivity.
+      * rewrite Wr. cbn. match goal with |- (if ?b then _ else _) = true => destruct b; reflexivity end.
       * destruct kp as [x|].
         -- destruct (Kcut x eq_refl) as [E ->]. rewrite E. cbn. destruct Kr as [-> | ->]; [exact Wr|apply Z.eqb_refl].
         -- destruct kr; reflexivity.
@@ -998,4 +1026,76 @@ Lemma pinf_peer_cap cfg D : inadmissible cfg = false -> is_finite (c_peer cfg) =
 Proof.
   intros Hin Hp ID Dp. destruct (admissible_factors cfg Hin) as [[Fr _] [E|[Fp _]]]; [|congruence].
   rewrite E. split; [reflexivity|]. split; [apply cap_pinf; assumption|exact Fr].
+Qed.
+
+(* ---- histories with the property's case analysis ---- *)
+Definition beyond (cfg : config) (po : Z) : bool := c_cutoff cfg <? dabs po.
+Definition nowrap (r p : Z) : Prop := Z.abs (p - r) <= max_i64.
+
+(* the case analysis of the property for one round, ro and po being the aggregated offsets of the two sides *)
+Definition corr_cases (cfg : config) (rm pm : f64) (nref npeer : nat) (ro po c : Z) : Prop :=
+  match nref, npeer with
+  | O, O => c = 0
+  | S _, O => c = Sync.bounded rm ro /\ within c rm = true
+  | O, S _ => if beyond cfg po then c = Sync.bounded pm po /\ within c pm = true else c = 0
+  | S _, S _ =>
+      if beyond cfg po
+      then c = midpoint (Sync.bounded rm ro) (Sync.bounded pm po) /\
+           (nowrap (Sync.bounded rm ro) (Sync.bounded pm po) -> within c pm = true)
+      else c = Sync.bounded rm ro /\ within c rm = true
+  end.
+
+Lemma round_cases cfg rm pm nref npeer ro po : cap_ok rm -> cap_ok pm -> fle rm pm = true ->
+  in_i64 ro -> in_i64 po -> corr_cases cfg rm pm nref npeer ro po (Sync.round cfg rm pm nref npeer ro po).
+Proof.
+  intros Hr Hp Hle Iro Ipo. rewrite round_shape by assumption.
+  destruct (bounded_facts rm ro Hr Iro) as [Wr Ir]. destruct (bounded_facts pm po Hp Ipo) as [Wp Ip].
+  unfold corr_cases, contributes, beyond.
+  destruct nref as [|nr], npeer as [|np]; cbn [Nat.eqb negb andb].
+  - reflexivity.
+  - destruct (c_cutoff cfg <? dabs po); [split; [reflexivity|exact Wp]|reflexivity].
+  - split; [reflexivity|exact Wr].
+  - destruct (c_cutoff cfg <? dabs po); [|split; [reflexivity|exact Wr]].
+    split; [reflexivity|]. intros Hn. unfold nowrap in Hn.
+    destruct (midpoint_nowrap _ _ Ir Ip Hn) as [_ Hm].
+    pose proof (within_le_caps _ rm pm Hr Hp Hle (in_i64_abs _ Ir) Wr) as Wr'.
+    destruct (Z_le_dec (Z.abs (Sync.bounded pm po)) (Z.abs (Sync.bounded rm ro))) as [L|G].
+    + apply (within_mono (Sync.bounded rm ro) _ pm Hp (in_i64_abs _ Ir)); [lia|exact Wr'].
+    + apply (within_mono (Sync.bounded pm po) _ pm Hp (in_i64_abs _ Ip)); [lia|exact Wp].
+Qed.
+
+(* histories: the slices of the two sides are the state; every round's correction obeys the case analysis for the
+   aggregated offsets that measureOffsetToRefClks computes from this round's timely answers and the stale values *)
+Inductive history (cfg : config) (rm pm : f64) (nref npeer : nat) : list rnd -> list Z -> list Z -> list event -> Prop :=
+| hist_nil sref speer : history cfg rm pm nref npeer [] sref speer []
+| hist_cons r rest sref speer sref' speer' ro po c evs :
+    measure sref (timely (r_ref r)) = (sref', ro) ->
+    measure speer (peer_arrivals npeer (r_peer r)) = (speer', po) ->
+    in_i64 ro -> in_i64 po ->
+    corr_cases cfg rm pm nref npeer ro po c ->
+    history cfg rm pm nref npeer rest sref' speer' evs ->
+    history cfg rm pm nref npeer (r :: rest) sref speer (EDo c :: ESleep (c_interval cfg) :: evs).
+
+Lemma loop_history cfg rm pm nref npeer rs : cap_ok rm -> cap_ok pm -> fle rm pm = true -> forall sref speer,
+  history cfg rm pm nref npeer rs sref speer (loop cfg rm pm nref npeer rs sref speer).
+Proof.
+  intros Hr Hp Hle. induction rs as [|r rest IH]; intros sref speer; [constructor|].
+  cbn [loop].
+  destruct (measure sref (timely (r_ref r))) as [sref' ro] eqn:M1.
+  destruct (measure speer (peer_arrivals npeer (r_peer r))) as [speer' po] eqn:M2.
+  destruct (measure_facts _ _ _ _ M1) as [_ I1]. destruct (measure_facts _ _ _ _ M2) as [_ I2].
+  econstructor; try eassumption; [apply round_cases; assumption|apply IH].
+Qed.
+
+Theorem run_history_cases cfg D nref npeer rs : in_i64 (c_interval cfg) -> in_i64 D ->
+  inadmissible cfg = false -> 0 < D ->
+  exists evs,
+    run cfg D nref npeer rs = (false, EDrift (c_interval cfg) D :: EDrift (c_interval cfg) D :: evs) /\
+    history cfg (cap (c_ref cfg) D) (cap (c_peer cfg) D) nref npeer rs (repeat 0 nref) (repeat 0 (peer_slots npeer)) evs.
+Proof.
+  intros Ii ID Hin Dp. pose proof (prologue_cases cfg D Ii ID) as P. unfold run.
+  destruct (prologue cfg D) as [code nd|rm pm].
+  - exfalso. destruct P as [[A _]|[_ [B _]]]; [congruence|lia].
+  - destruct P as [_ [_ [-> [-> [Cr Cp]]]]]. eexists. split; [reflexivity|].
+    apply loop_history; try assumption. apply caps_ordered; assumption.
 Qed.
